@@ -5,6 +5,8 @@ import (
 	"errors"
 	"fmt"
 	"os"
+	"runtime"
+	"strings"
 	"time"
 
 	"github.com/feichai0017/NoKV/kv"
@@ -43,6 +45,7 @@ func (p schedProg) writeKeys() []int {
 type schedDesc struct {
 	Detect bool        `json:"detect"`
 	Pause  bool        `json:"pause,omitempty"` // the commit worker stops before applying each request (Crash point commit.head)
+	Probe  bool        `json:"probe,omitempty"` // look (call stack) for a txnMark.Begin running outside newCommitTs and stop there
 	Progs  []schedProg `json:"progs"`
 	Words  []int       `json:"words"`
 	Picks  []int       `json:"picks,omitempty"`
@@ -50,6 +53,30 @@ type schedDesc struct {
 }
 
 const releasePick = 50
+
+// markBeginOutsideLock reports whether some thread is parked at a yield point of
+// utils.WaterMark.Begin that was called from Txn.commitAndSend directly, i.e. outside
+// oracle.newCommitTs' critical section: its commit timestamp is issued, but the commit is not yet
+// registered with the commit watermark. (In the code as it is, txnMark.Begin runs inside
+// newCommitTs; the yield points inside the watermark are then passed through.)
+func markBeginOutsideLock() bool {
+	buf := make([]byte, 1<<18)
+	for {
+		n := runtime.Stack(buf, true)
+		if n < len(buf) {
+			buf = buf[:n]
+			break
+		}
+		buf = make([]byte, 2*len(buf))
+	}
+	for _, g := range strings.Split(string(buf), "\n\n") {
+		if strings.Contains(g, "sched.(*S).yield") && strings.Contains(g, "(*WaterMark).Begin") &&
+			strings.Contains(g, "commitAndSend") && !strings.Contains(g, "newCommitTs") {
+			return true
+		}
+	}
+	return false
+}
 
 var schedPoints = map[string]bool{
 	"oracle.readTs.lock": true, "oracle.readTs.wait": true, "h.get": true,
@@ -152,6 +179,8 @@ func execSched(c *corr.Ctx, d schedDesc) (corr.Case, error) {
 	var picks []int
 	waiting := make([]bool, n) // blocked for real inside WaitForMark after a forced grant
 	inWait := make([]bool, n)  // inside req.Wait: its request is queued, held or applied but not acknowledged
+	atMark := make([]bool, n)  // stopped between "timestamp issued" and "registered with the watermark"
+	markStops := 0
 	forcedBlocked := 0
 	waitParked := func(id int, point string) {
 		deadline := time.Now().Add(10 * time.Second)
@@ -252,13 +281,24 @@ func execSched(c *corr.Ctx, d schedDesc) (corr.Case, error) {
 				continue
 			}
 			if st.Status == sched.Parked && !schedPoints[st.Point] {
+				if d.Probe && from == "oracle.newCommitTs.lock" && st.Point == "utils.WaterMark.setLastIndex.load" && !atMark[id] && markBeginOutsideLock() {
+					atMark[id] = true
+					markStops++
+					picks = append(picks, id) // the timestamp is issued: the model's commit step
+					return
+				}
 				st = s.Grant(id) // a yield point that is not a step of the model
 				woken = append(woken, st.Woken...)
 				continue
 			}
 			break
 		}
-		picks = append(picks, id)
+		resumedFromMark := atMark[id] && strings.HasPrefix(from, "utils.WaterMark.")
+		if resumedFromMark {
+			atMark[id] = false
+		} else {
+			picks = append(picks, id)
+		}
 		if waiting[id] {
 			return
 		}
@@ -280,7 +320,7 @@ func execSched(c *corr.Ctx, d schedDesc) (corr.Case, error) {
 					herr = fmt.Errorf("commit worker: unexpected event")
 				}
 			}
-		} else if from == "oracle.newCommitTs.lock" && st.Status == sched.Parked && st.Point == "oracle.doneCommit" {
+		} else if (from == "oracle.newCommitTs.lock" || resumedFromMark) && st.Status == sched.Parked && st.Point == "oracle.doneCommit" {
 			// conflict check + timestamp, then the free-running worker applied every entry
 			for range d.Progs[id].writeKeys() {
 				picks = append(picks, id)
@@ -350,6 +390,7 @@ func execSched(c *corr.Ctx, d schedDesc) (corr.Case, error) {
 	c.CountN("commit_ok", oks)
 	c.CountN("commit_conflict", conflicts)
 	c.CountN("forced_wait_blocked", forcedBlocked)
+	c.CountN("stopped_between_timestamp_and_mark", markStops)
 	coq := fmt.Sprintf("Cs %s %s %s %s %s %s", corr.Bool(d.Detect), corr.List(fps), corr.List(progs), corr.ListN(pk),
 		corr.List(obs), corr.List(dumps))
 	return corr.Case{Coq: coq, Nontrivial: oks > 0, Desc: d}, nil
@@ -410,7 +451,10 @@ func runTxnSched(c *corr.Ctx) error {
 		"grants), worker free-running (126). exhaustive B: commit worker paused before it applies the request (Crash point commit.head): "+
 		"committer [lock, wait, commit, RELEASE, done] x read-only reader [lock, FORCED wait, get a, get b] (126): the forced grant makes the real "+
 		"WaitForMark block while the model keeps the reader disabled. targeted C: read-modify-write transaction beginning (forced wait) while a "+
-		"commit is in flight, a second committer overwriting its key and a third one pruning the conflict history, in several orders. random: "+
+		"commit is in flight, a second committer overwriting its key and a third one pruning the conflict history, in several orders. "+
+		"targeted D: a committer stopped between its timestamp and its registration with the commit watermark (only possible when "+
+		"txnMark.Begin runs outside newCommitTs: detected by the call stack at the watermark's yield point), a second committer "+
+		"committing meanwhile, a reader reading the first one's key twice. random: "+
 		"3-5 threads (committers of a, b or both, RMW transactions, read-only readers), random block schedules with forced grants and, in half "+
 		"of them, the paused worker; round-robin drain. Compared: read timestamps, every value read, commit results, final version lists. "+
 		"non-trivial = at least one commit succeeded; distinct by Gallina term")
@@ -496,13 +540,32 @@ func runTxnSched(c *corr.Ctx) error {
 			ferr = emit(schedDesc{Detect: true, Pause: pause, Progs: rmw, Words: words})
 		}
 	}
+	// D: a second committer runs its whole commit while the first one has its timestamp but has not
+	// handed its entries to the write path; then a reader begins and reads the first one's key twice
+	late := []schedProg{
+		{Tag: "c0", Keys: []int{0}}, // 0: C1 writes a
+		{Reads: []int{0, 0}},        // 1: reader
+		{Tag: "c2", Keys: []int{1}}, // 2: C2 writes b
+	}
+	for _, w := range [][]int{
+		{2, 2, 0, 0, 0, 2, 2, 2, 1, 1, 1, 0, 0, 1},
+		{0, 0, 2, 2, 0, 2, 2, 2, 1, 1, 1, 0, 0, 1},
+		{2, 2, 0, 0, 0, 2, 2, 2, 1, 101, 1, 0, 0, 1},
+		{2, 2, 0, 0, 0, 2, 2, 2, 1, 1, 0, 1, 0, 1},
+	} {
+		if ferr != nil {
+			break
+		}
+		c.Count("targeted_late_mark_schedules")
+		ferr = emit(schedDesc{Detect: true, Probe: true, Progs: late, Words: w})
+	}
 	if ferr != nil {
 		return ferr
 	}
 	n := c.Scale(60, 3000)
 	for i := 0; i < n; i++ {
 		r := c.Rng
-		d := schedDesc{Detect: r.Intn(5) != 0, Pause: r.Intn(2) == 0}
+		d := schedDesc{Detect: r.Intn(5) != 0, Pause: r.Intn(2) == 0, Probe: r.Intn(4) == 0}
 		randReads := func(max int) []int {
 			var out []int
 			for j, m := 0, r.Intn(max+1); j < m; j++ {
